@@ -44,7 +44,12 @@ def run(run):
             run.stream("c02", 100000, seed_offset=k, timeout=3000)
     return run.finish(
         level="proof",
-        rule="a deterministic corpus first (one minimal witness per known finding, one per defect fixed in /repo that must now pass), then generated: "
+        rule="a deterministic corpus first (one minimal witness per known finding, one per defect fixed in /repo that must now pass; header-less "
+             "CSV/TSV files x LF/CRLF/CR x enclose-all x UTF-8/UTF-8 BOM/Shift_JIS through UPDATE + COMMIT must keep their bytes' dialect), then the "
+             "refusal matrix (LTSV value with TAB / LF, LTSV label, fixed-length overflow, JSON path through a scalar; the unspellable cell in the "
+             "first / a middle / the last record and field; sinks: EncodeView into a buffer, processor --out writer, processor stdout, and the csvq "
+             "binary built from the tree under test: --out FILE new and existing, stdout, UPDATE + COMMIT, CREATE TABLE AS - zero bytes written, "
+             "files unchanged, nothing left behind), then generated (incl. a share of refusal injections at random positions): "
              "tables of 0-50 rows x 1-6 columns, plus a size band of 280-700 records x 2-3 short columns around the loaders' prepared capacity "
              "(fileLoadingPreparedRecordSetCap = 300: 298-303, 301-380, 280-700) in the decode stream (CSV/TSV/LTSV/fixed, model = implementation) and in the "
              "write-then-read law (all six formats; law roundtrip:<fmt>:record_count); cells NULL / strings / integers / floats / booleans / ternaries / datetimes; string texts composed from "
